@@ -124,7 +124,11 @@ struct Run {
 	int ctx_of_id(const std::string &id) const { for (size_t c = 0; c < cfg.ctx.size(); c++) if (cfg.ctx[c].id == id) return (int)c; return -1; }
 
 	// ------------------------------------------------------------ wire
-	int add_msg(const Tup &f, int from, int to, bool byzmade) {
+	int add_msg(const Tup &f0, int from, int to, bool byzmade) {
+		// fields are compared as decimal strings by the monitors: keep them canonical (a fabricated "07" is the integer 7 on the
+		// wire, and the library's answer carries "7" — comparing the two as text raised a false echo-without-r-send alarm in the
+		// thorough tier, see DESIGN 8.3)
+		Tup f = f0; for (auto &x : f) { mpz_t z; mpz_init(z); if (mpz_set_str(z, x.c_str(), 10) == 0) { char *c = mpz_get_str(nullptr, 10, z); x = c; free(c); } mpz_clear(z); }
 		WMsg m; m.f = f; m.from = from; m.to = to; m.byz = byzmade;
 		m.act = (f[3].size() <= 2 && !f[3].empty() && f[3][0] != '-') ? atol(f[3].c_str()) : -1;
 		msgs.push_back(m); return (int)msgs.size() - 1;
@@ -139,7 +143,7 @@ struct Run {
 		if (to < 0 || to >= n || cfg.byz[to]) return;
 		int mi = add_msg(f, b, to, true); q[b][to].push_back(mi); inflight++; byz_msgs.push_back(mi);
 		ev.push_back({'I', b, to, mi, 0, ""}); cnt["injected"]++;
-		if (msgs[mi].act == 1) learn(f, false);
+		if (msgs[mi].act == 1) learn(msgs[mi].f, false);
 	}
 	void react(int b, int from, const Tup &f, long act);    // Byzantine b got a request / l-retrieve from honest `from`
 
